@@ -52,6 +52,8 @@ CORRUPTIONS = [
     "invalid-utf8",
     "len-boundary",
     "len-boundary-multibyte",
+    "long-multibyte-refusable",
+    "long-multibyte-refusable",
     "huge-crlf",
     "huge-nocrlf",
     "empty-line",
@@ -133,6 +135,20 @@ def corrupt(rng, kind=None):
         fill = ch * n + "a" * (room - n * len(ch.encode()))
         line = head + fill + tail
         return line.encode() + CRLF + (b"abc" if sch == "titan" else b""), f"{kind}:{total_bytes}:{sch}:{len(line) + 2}chars"
+    if kind == "long-multibyte-refusable":
+        # a line that fits the limit, must be refused (user-info / fragment / no host / other scheme) and is long and
+        # full of multi-byte text: whatever the refusal says about it, it is still a well-formed 59
+        ch = rng.choice(["\u00e9", "\u4e2d", "\U0001F600", "\u00fc"])
+        total = rng.choice([960, 985, 1000, 1011, 1019, 1020, 1021, 1022, 1023, 1024])
+        how = rng.choice(["userinfo", "fragment", "no-host", "other-scheme", "bad-port"])
+        head, tail_ = {"userinfo": ("gemini://user@example.org/", ""), "fragment": ("gemini://example.org/", "#frag"), "no-host": ("gemini:///", ""),
+                       "other-scheme": ("https://example.org/", ""), "bad-port": ("gemini://example.org:99x/", "")}[how]
+        room = total - 2 - len(head) - len(tail_)
+        pad = rng.randint(0, 3)
+        n = max(1, (room - pad) // len(ch.encode()))
+        fill = "a" * pad + ch * n
+        fill += "b" * (room - len(fill.encode()))
+        return (head + fill + tail_).encode() + CRLF, f"{kind}:{how}:{total}"
     if kind == "huge-crlf":
         n = rng.choice([1500, 2000, 5000])
         return uri.pad_to(rng, "gemini://example.org/", n).encode() + CRLF, kind
